@@ -396,7 +396,32 @@ func safely(f func()) (pan any) {
 
 func c13Check(c *core.Ctx, s fScenario) {
 	c.SetScenario(s)
-	w := runForest(c, s, func(site, clause, trigger, detail string) { c.Violate(site, "setup:"+clause, trigger, detail) }, nil)
+	// The size prediction is asked for along the way too - after some operations and not after others
+	// (round 10, seeded change C13j: a prediction memoised per (leaves added, leaves deleted), stale once a
+	// block is undone and a competing block with the same counts is applied).
+	w := runForest(c, s, func(site, clause, trigger, detail string) { c.Violate(site, "setup:"+clause, trigger, detail) }, func(st *fState) {
+		if st.Quiet || c.CaseViolations() > 0 {
+			return
+		}
+		for _, in := range st.W.Insts {
+			if in.P == nil {
+				continue
+			}
+			c.Eval(1)
+			sz := in.P.SerializeSize()
+			var cw countingDiscard
+			n, err := in.P.WriteTo(&cw)
+			if err != nil || n != cw.n {
+				c.Violate("Pollard.WriteTo", "byte-count", "along-the-scenario", fmt.Sprintf("%s: reported %d bytes, err %v, sink saw %d", st.When, n, err, cw.n))
+				return
+			}
+			if int64(sz) != cw.n {
+				c.Violate("Pollard.SerializeSize", "size-prediction", "along-the-scenario", fmt.Sprintf("%s: predicted %d, wrote %d", st.When, sz, cw.n))
+				return
+			}
+			c.Count("size_predictions_checked_along_scenarios", 1)
+		}
+	})
 	if c.CaseViolations() > 0 || w == nil {
 		return
 	}
@@ -672,3 +697,8 @@ func c13Instance(c *core.Ctx, w *World, in *Inst, f *rm.Forest) {
 			"truncation_points": len(offsets), "writer_failure_points": 2 * len(offsets), "reader_chunkings": len(readerKinds)})
 	}
 }
+
+// countingDiscard counts the bytes it is given and keeps none.
+type countingDiscard struct{ n int64 }
+
+func (d *countingDiscard) Write(p []byte) (int, error) { d.n += int64(len(p)); return len(p), nil }
